@@ -87,18 +87,56 @@ PROVED = [
     'the input is not closed under multiplication) and the step never runs out of fuel; unreachable: assert!(u_p.len() <= deg), '
     'assert_eq!(u_p.dim(), deg) (full rank of [U_p; pI]), the panics of Order::from_basis (the new basis (h/p)O is non-singular), '
     'the panic! of index (old = S * new with S integral) and every assert_eq!(index % p, 0) (det S divides p^deg)',
+    # ---- fourth wave
+    '[P] prime_loop_no_underflow / prime_loop_returns (the statement of prime_loop_no_underflow_partial without its integrality '
+    'hypothesis, both profiles): on an order whose discriminant is p^e * r, p prime not dividing r, 0 <= e < 2^64, the while loop of '
+    'the driver never panics -- every order on the way has an integer discriminant (C15 order_disc_trace_form), disc(old) = disc(new) '
+    '* p^(2 howmany), hence 2*howmany <= e at every turn and e -= 2*howmany cannot underflow -- and with the fuel the driver supplies it '
+    'returns an order whose discriminant is that of the input divided by a power of p',
+    '[P] find_integral_basis_no_panic_monic: for every monic f of degree deg >= 1 (2 deg < 2^64) whose starting order has a non-zero '
+    'discriminant d0 of fewer than 2^64 bits, in both build profiles find_integral_basis returns (no panic, no OutOfFuel) and the '
+    'result is an order (trial_factorize_spec gives the exact exponents e of the distinct primes of d0; the exponents of the later '
+    'primes are unchanged by the steps at earlier primes); non_monic_total_monic: the starting order of a monic f is computed',
+    '[P] pz_core (Pohst-Zassenhaus / Cohen Thm 6.1.3, in the coordinates of one_step_lattices): T the table of an order (commutative, '
+    'associative, unit), p prime, I_p the radical { x : x^pow = 0 mod p } with pow = p^k >= deg; an over-ring O\'\' with N O\'\' in O given by the '
+    'set Ll of coordinate vectors of N O\'\' (N Z^deg in Ll, Ll*Ll in N Ll); if some w0/N of O\'\' is outside O while p w0/N is inside, then there '
+    'is u not in p Z^deg with u * I_p in p I_p (u/p lies in the multiplier ring of I_p and not in O). Proved element by element in the '
+    'MathComp comRingType of the table (no products of ideals); nilpotent mod p => deg-th power 0 mod p via the regular representation over F_p '
+    'and a rank argument for nilpotent matrices',
+    '[P] step_zero_p_maximal / p_maximal_step_zero / step_zero_iff_p_maximal (Pohst-Zassenhaus for the model): on an order O (is_order: stored '
+    'basis, contains 1, get_mult_table returns), at a prime p, f with non-zero leading coefficient: one_step returns howmany = 0 IF AND ONLY IF '
+    'O is p-maximal, i.e. p divides index(O2, O) for no over-order O2 (any deg x deg rational basis on which get_mult_table returns and '
+    'whose lattice contains O). Hard direction: O = S O2 with S integral, index = det S, |det S| O2 in O (adjugate), a vector of the kernel of S '
+    'mod p gives an element of O2 outside O carried into O by p, closure of the coordinates of |det S| O2 under the table product from the '
+    'table of O2 (product of Q[x]/(f)), pz_core, and index(result, O) = 1 forces U_p + p Z^deg = p Z^deg',
+    '[P] small_disc_p_maximal: p^2 not dividing disc(O) implies O p-maximal (disc(O) = disc(O2) index^2, disc(O2) an integer by C15 '
+    'order_disc_trace_form); p_maximal_transfer: p-maximality passes to a larger order of index prime to p; prime_loop_p_maximal: the while '
+    'loop at p returns a p-maximal order containing its input',
+    '[P] find_integral_basis_p_maximal / find_integral_basis_maximal: for every monic f of degree deg >= 1 (2 deg < 2^64) whose starting order '
+    'has a non-zero discriminant of fewer than 2^64 bits, in both build profiles the driver returns an order O that is p-maximal at EVERY '
+    'prime p, and O is the maximal order: every over-order O2 (lattice closed under multiplication containing O) has index 1 (or -1, '
+    'orientation of the basis) and the same lattice as O (over_unit_equal)',
+    '[P] step_zero_equivalences: on an order, at a prime, for a returning step: howmany = 0 <=> p divides the index of O in no over-order '
+    '<=> O has no over-order of index p^k with k > 0 (the usual wording); all_p_maximal_maximal: p-maximal at every prime => index 1 or -1 '
+    'in every over-order, which has the same lattice',
+    '[C] find_integral_basis_maximal_partial / find_integral_basis_p_maximal_partial: the driver theorems for ANY f with non-zero leading '
+    'coefficient, PROVIDED the starting order is computed and closed under multiplication (flag computed by the model; proved for monic f)',
 ]
 NOT_PROVED = [
-    'a fixed point of the Round 2 step (howmany = 0) is p-maximal (Pohst-Zassenhaus), hence maximality of the result and '
-    'disc = field discriminant',
+    'maximality of the result for NON-MONIC f (all the fourth-wave theorems about the Round 2 step hold for any f with non-zero leading '
+    'coefficient and any order; only the driver theorems find_integral_basis_no_panic_monic / _p_maximal / _maximal assume f monic, because '
+    'the starting order of a non-monic f is not proved to be a ring)',
+    'that the discriminant of the returned order equals the field discriminant as defined through embeddings / that the maximal order is the '
+    'integral closure of Z in Q[x]/(f) (no notion of integral element in the development; maximality is stated as: no strictly larger '
+    'lattice closed under multiplication, which characterises the ring of integers when f is irreducible)',
     'that the starting order Z[theta] cap Z[1/theta] of a NON-MONIC f is closed under multiplication (the flag of '
-    'find_integral_basis_order_partial; proved for monic f: find_integral_basis_order_monic), and that the discriminant of an order is an integer with '
-    'p^(2 howmany) dividing it (the hypothesis of prime_loop_no_underflow_partial: needs the trace form) -- so the u64 overflow of '
-    'e -= 2*howmany is the one panic of the loops not excluded unconditionally',
+    'find_integral_basis_order_partial; proved for monic f: find_integral_basis_order_monic); for non-monic f the absence of panics of the '
+    'driver is therefore conditional on that flag',
     'independence of the generator (theta + k, -theta, c*theta, 1/theta give the same discriminant)',
     'inside one_step only the assertions of the table construction (expect on solve_linear_system, is_integer) are reachable, and only '
     'on inputs that are not orders (w3_not_a_ring); on orders the step is proved panic-free (order_step_returns)',
-    'the remaining exponent bookkeeping in the release profile (wrap-around) is modelled but no theorem is stated about it',
+    'inputs whose discriminant has 2^64 bits or more (the u64 exponents of the factorisation would not fit) are excluded from '
+    'find_integral_basis_no_panic_monic by hypothesis',
 ]
 ASSUMPTIONS = ['num::integer::lcm on BigInt taken as Z.lcm (non-negative)',
                'one_step is reached through the feature-gated access wrapper integral_basis::verif::one_step of /repo (module round2 is private)']
@@ -106,7 +144,11 @@ ASSUMPTIONS = ['num::integer::lcm on BigInt taken as Z.lcm (non-negative)',
 CLAIM = dict(
     technique='Coq proof about the Gallina model of find_integral_basis / round2::one_step + extracted-model-vs-implementation correspondence '
               '+ independent maximality oracle on every explored input',
-    text='Proved for all inputs about the model (coq/Props/C06.v, 44 theorems, closed under the global context): the loop structure and exit '
+    text='Proved for all inputs about the model (coq/Props/C06.v, 62 theorems, closed under the global context). Fourth wave: the Pohst-Zassenhaus '
+         'theorem for the model (one_step on an order at a prime returns howmany = 0 iff the order is p-maximal), no u64 underflow of the exponent '
+         'bookkeeping, and for every monic f with non-zero discriminant (fewer than 2^64 bits, 2 deg < 2^64), in both build profiles: '
+         'find_integral_basis returns (no panic, enough fuel) an order that is p-maximal at every prime and is the maximal order (every lattice closed '
+         'under multiplication that contains it is equal to it). Earlier waves: the loop structure and exit '
          'condition of the driver, index(new, old) = p^howmany for every step on a stored basis, containment of the input order in every '
          'step result and of the starting order in the final result, disc(start) = disc(O) * index^2 with index >= 1, the degree-1 case, '
          '(conditionally on integrality of the intermediate discriminants) absence of u64 underflow; and for the Round 2 step itself: the '
@@ -118,8 +160,8 @@ CLAIM = dict(
          'statement (tables mod p and p^2 with truncating %, Frobenius power, I_p and U_p through HNF::new(HNF::kernel(.)) with row '
          'truncation, assertions, u64 exponent bookkeeping); it is tied to /repo by running the extracted model and impl_svc (library, '
          'one_step through the access wrapper, and the CLI) on the same inputs.',
-    note='NOT proved: p-maximality of a fixed point of the step (Pohst-Zassenhaus), that the starting order of a non-monic f is a ring (proved for monic f), '
-         'integrality of the discriminant of an order (trace form), independence of the generator; these clauses are checked on every explored input by an independent oracle (ring axioms, '
+    note='NOT proved: that the starting order of a non-monic f is a ring (proved for monic f; hence the driver theorems are for monic f), '
+         'independence of the generator, identification of the maximal order with the integral closure; these clauses are checked on every explored input by an independent oracle (ring axioms, '
          'discriminant by formula / trace form / closed forms of quadratic, pure cubic, cyclotomic, biquadratic fields, p-maximality by '
          'the Dedekind criterion and by an own multiplier-ring test, equal discriminants across changes of generator).',
     ref='DESIGN.md section 4, C06')
